@@ -471,12 +471,17 @@ def work_items(tier):
 def shards(tier):
   n = len(work_items(tier))
   k = 48
-  return [(i, k) for i in range(min(k, n))]
+  from vt.checks import c02_openloop
+  return [(i, k) for i in range(min(k, n))] + [("openloop", name) for name, *_ in c02_openloop.designs()]
 
 
 def run_shard(shard, tier, seed):
   i, k = shard
   acc = Acc()
+  if i == "openloop":
+    from vt.checks import c02_openloop
+    c02_openloop.explore(tier, acc, only=k)
+    return acc
   items = work_items(tier)
   irs = dict(irgen.all_designs())
   expl = {n: (d, inv) for n, d, inv in f_explicit()}
@@ -498,6 +503,9 @@ def run_shard(shard, tier, seed):
 def replay(case):
   acc = Acc()
   mode = case.get("mode")
+  if mode == "openloop":
+    from vt.checks import c02_openloop
+    return c02_openloop.replay(case)
   if mode == "hw":
     check_hw(case["kind"], tuple(case["args"]), acc, only_group=case.get("group"))
   elif mode == "cyclic":
@@ -522,5 +530,6 @@ def finish(acc, tier):
          "states = distinct observed block orders; non-trivial = designs that carry at least one writer-before-reader or explicit obligation",
     exhaustive=True, designs=int(acc.n["designs"]), required_pairs=int(acc.n["required_pairs"]),
     seam_schedules=int(acc.n["seam_schedules"]), cyclic_rejections=int(acc.n["cyclic_rejected"]),
+    openloop_call_sequences=int(acc.n["openloop_executions"]), openloop_distinct_event_orders=acc.size("openloop_outcomes"),
     bounds=dict(pass_groups=list(GROUPS), handwritten_groups=list(HW_GROUPS), seam_cap_per_design=40),
   )
